@@ -12,7 +12,7 @@ sys.path.insert(0, os.path.dirname(os.path.abspath(__file__)))
 import lalrpop_lite as L
 
 REPO = os.environ.get("VERIF_REPO", "/repo")
-LABELS = "vb:D:5;vw:D:300;big:D:65535;zero:D:0;start:C:0;lab:C:7;far:C:100"
+LABELS = "vb:D:5;vw:D:300;big:D:65535;zero:D:0;edge:D:15;start:C:0;lab:C:7;far:C:100"
 FNS = "fun:3;other:44"
 ADV = [0, 1, 2, 0x7FFF, 0x8000, 0xFFFE, 0xFFFF, 0x1234, 0x00FF, 0xFF00, 0xFFF0, 0x000F, 0x0100]
 
@@ -84,7 +84,7 @@ def state(r):
     regs = [r.choice(ADV) if r.random() < 0.66 else r.randrange(65536) for _ in range(14)]
     regs[0] = r.choice([0, 0xF000, 0xFFFF, 0x0001, 0x0400, 0x0100 | 0x0400, r.randrange(65536)])      # flags
     if r.random() < 0.3:
-        regs[10:14] = [r.choice([0xFFFF, 0xF000, 0xFFF0, 0, r.randrange(65536)]) for _ in range(4)]
+        regs[10:14] = [r.choice([0xFFFF, 0xFFFF, 0xF000, 0xFFF0, 0, r.randrange(65536)]) for _ in range(4)]
     return regs
 
 def main():
@@ -111,7 +111,7 @@ def main():
                 def nm(m, line=line):
                     before = line[:m.start()].rstrip().split(" ")[-1] if line[:m.start()].strip() else ""
                     if before in ("byte", "word"):
-                        return r.choice(["vb", "vw", "big", "zero"])
+                        return r.choice(["vb", "vw", "big", "zero", "edge", "edge"])
                     if before == "call":
                         return r.choice(["fun", "other", "fun", "nofun"])
                     return r.choice(["lab", "far", "start", "lab", "nolabel", "vb"])
